@@ -10,12 +10,16 @@ BaseFeats == {"plural", "number", "date", "time", "datetime", "list", "currency"
 \*   plural_currency a plural whose forms format the count with `currency`
 \*   plural_date    a plural whose forms format another variable with `date`
 \*   number_list    one string, two variables, two formatters
-MixFeats == {"range", "range_number", "plural_number", "plural_currency", "plural_date", "number_list"}
+\*   bare           a variable printed as is (needs nothing)
+\*   bare_number / bare_date   the same variable printed as is AND through a formatter in one value
+MixFeats == {"range", "range_number", "plural_number", "plural_currency", "plural_date", "number_list", "bare", "bare_number", "bare_date"}
 Feats  == BaseFeats \cup MixFeats
 Wheres == {"t", "g.s", "g.h.u"}
 OptionOf(f) == CASE f = "plural" -> "Plurals" [] f = "number" -> "FormatNums" [] f = "list" -> "FormatList"
                  [] f = "currency" -> "FormatCurrency" [] OTHER -> "FormatDateTime"
-OptionsOf(f) == CASE f = "range" -> {}
+OptionsOf(f) == CASE f \in {"range", "bare"} -> {}
+                  [] f = "bare_number" -> {"FormatNums"}
+                  [] f = "bare_date" -> {"FormatDateTime"}
                   [] f = "range_number" -> {"FormatNums"}
                   [] f = "plural_number" -> {"Plurals", "FormatNums"}
                   [] f = "plural_currency" -> {"Plurals", "FormatCurrency"}
